@@ -14,7 +14,7 @@ from core import VERIF, quiet, repo_tree_hash
 
 quiet()
 CACHE = os.path.join(VERIF, ".cache")
-HARNESS_VERSION = "5"
+HARNESS_VERSION = "6"
 
 SPECIALS = [
     # redox pairs that reach the reagent templates, halide losses, ions, heavy elements, markers, peroxides
@@ -35,6 +35,11 @@ SPECIALS = [
     "O=S(=O)(Cl)c1ccc(Br)cc1.[H].[H]>>O=S([O-])c1ccc(Br)cc1", "CCOC(=O)c1ccccc1.[H]>>[O-]Cc1ccccc1",
     "CC(=O)OCC.[H].[H].[H]>>CC[O-]", "CCCCBr.[O]>>CCCC[O-]", "CC(C)Cl.[O].[O]>>CC(C)[O-]", "CCOC(C)=O.[H].[H]>>CC(=O)[O-]",
     "c1ccccc1COC(C)=O.[H].[H]>>[O-]Cc1ccccc1", "CCBr.[H]>>CC[NH3+]", "ClCc1ccccc1.[H].[H].[H]>>[O-]Cc1ccccc1",
+    # spectator-heavy reactions the scoring model gives a confidence of (almost) exactly 0 — the boundary of `>= threshold`
+    # at the default threshold 0
+    "C1CCNCC1.O=CC.CC(C)(C)OOC(C)(C)C.CC#N>>CC(=O)N1CCCCC1", "NCc1ccccc1.O=Cc1ccc(Cl)cc1.CC(C)(C)OO>>O=C(NCc1ccccc1)c1ccc(Cl)cc1",
+    "CCCCN.O=Cc1ccncc1.CC(C)(C)OOC(C)(C)C.c1ccccc1>>CCCCNC(=O)c1ccncc1", "NCCO.O=Cc1ccco1.CC(C)(C)OO.ClCCl>>O=C(NCCO)c1ccco1",
+    "CCNCC.O=Cc1ccccc1.CC(C)(C)OOC(C)(C)C.CC#N>>CCN(CC)C(=O)c1ccccc1",
 ]
 
 
